@@ -302,6 +302,28 @@ class C20(PropBase):
     def impl_cmd(self, exe, profile):
         return [exe, self.build_tool(profile), vlib.REPO]
 
+    def help_enums(self):
+        """{option: [values]} read from the `[possible values: ..]` lines of the built tool's own --help: the documentation of
+        the command line under test, so that an enumerated option (or value) added to it is exercised too"""
+        import re
+        import subprocess
+        try:
+            out = subprocess.run([self.build_tool("debug"), "--help"], stdout=subprocess.PIPE, stderr=subprocess.DEVNULL, timeout=120,
+                                 cwd="/tmp").stdout.decode("utf-8", "replace")
+        except Exception as e:      # the run itself reports a tool that cannot even print its help
+            log("[C20] --help of the tool could not be read (%s); using the values of the manual" % e)
+            return {}
+        enums, cur = {}, None
+        for line in out.splitlines():
+            m = re.match(r"\s+(?:-\w, )?--([\w-]+)(?: <[^>]*>)?(?:\.\.\.)?\s*$", line)
+            if m:
+                cur = m.group(1)
+                continue
+            m = re.match(r"\s+\[possible values: (.*)\]\s*$", line)
+            if m and cur:
+                enums[cur] = [v.strip() for v in m.group(1).split(",") if v.strip()]
+        return enums
+
     # ------------------------------------------------------------------ cases
     def gen_cases(self, tier, seed):
         rng = Rng(seed)
@@ -504,6 +526,24 @@ class C20(PropBase):
                 i = toks.index("--verbose=" + value) if eq else toks.index("--verbose") + 1
                 toks[i] = ("--verbose=" + bad) if eq else bad
                 argv_case("argv_near_miss_values", "N", toks, rng.choice(["F:test.dmp", "S:0", "F:invalid-range.dmp"]), verbose=value, **shp)
+        # every enumerated option of the tool's OWN --help: a value (or an option) the manual this check was written from does
+        # not know is still a documented value (tag E: must not be refused as a usage error, must not end by panic), and its
+        # near misses are near misses
+        for optname, values in sorted(self.help_enums().items()):
+            known = {"features": FEATURE_VALUES, "verbose": VERBOSE_VALUES}.get(optname, [])
+            for value in values:
+                if value in known:
+                    continue
+                for eq in (False, True):
+                    argv_case("argv_enum_values", "E", (["--%s=%s" % (optname, value)] if eq else ["--" + optname, value]) + ["@D"])
+                    argv_case("argv_enum_values", "E", ["--json", "@D"] + (["--%s=%s" % (optname, value)] if eq else ["--" + optname, value]),
+                              modes="j")
+                for bad in near_misses(value)[:6]:
+                    argv_case("argv_enum_values", "R", ["--%s=%s" % (optname, bad), "@D"])
+            for value in known:
+                if value not in values:       # the manual's value is gone from the tool's help
+                    argv_case("argv_enum_values", "S", ["--%s=%s" % (optname, value), "@D"],
+                              **({"feat": FEATURE_VALUES.index(value)} if optname == "features" else {"verbose": value}))
         # every flag and every single-valued option given twice (same value, two values); repeatable options twice
         for flag, kw in (("--json", dict(modes="j")), ("--human", dict(modes="h")), ("--dump", dict(modes="D")), ("--brief", dict(brief=1)),
                          ("--pretty", dict(modes="j", pretty=1)), ("--recover-function-args", dict(rfa=1, sym="p")),
@@ -661,6 +701,15 @@ class C20(PropBase):
             for nm, x in outputs:
                 if isinstance(x, tuple) and x[2] and x[0] and (nm != "standard output"):
                     return "--help / --version wrote a report to %s" % nm
+            return None
+        if tag == "E":
+            # a value the tool's own --help lists for an enumerated option (not 101 / signal: judged above)
+            if ex == "2":
+                return "a value listed under [possible values: ..] in the tool's --help is refused as a usage error"
+            if ex == "0" and not any(sink_len(x) for _n, x in outputs):
+                return "status 0 without a report"
+            if ex == "1" and stderr == 0:
+                return "status 1 without a diagnostic on standard error"
             return None
         if tag == "R" or (tag == "N" and ex != "0"):
             rejected = True
